@@ -116,7 +116,9 @@ class ObjWorld:
         del I.effects[n0:]
         bad = []
         if [x[0] for x in a] != [x[0] for x in b]:
-            bad.append(f"{name}: the kept handle sees parts {[x[0] for x in a][:6]}.., a fresh view {[x[0] for x in b][:6]}..")
+            pa_, pb_ = [x[0] for x in a], [x[0] for x in b]
+            k_ = next((i for i, (x, y) in enumerate(zip(pa_, pb_)) if x != y), min(len(pa_), len(pb_)))
+            bad.append(f"{name}: the kept handle and a fresh view see different parts: {len(pa_)} vs {len(pb_)} leaves, first difference `{pa_[k_] if k_ < len(pa_) else '<none>'}` vs `{pb_[k_] if k_ < len(pb_) else '<none>'}`")
             return bad, a
         for (p, pa, va), (_, pb, vb) in zip(a, b):
             if pa != pb:
@@ -470,7 +472,53 @@ class Hist:
         return out + self.frame(before, [], f"refused s1.b = <{n + 3} values>")
 
 
+    # ------------------------------------------------------------ operations applied through ANOTHER handle
+    def op_update_via_view(self, dst, src):
+        """the same whole-value update, applied through a second handle of the object (a view made from its buffer
+        and offset, as every field / item / reference access makes one); the handle kept in the history is then the
+        OLDER one and must still locate every part where the bytes now say it is (C10: "through randomly chosen
+        handles/views", "cached vs reread offsets")"""
+        I = self.I
+        h, v = self.objs[dst], self.objs[src]
+        view = self.ow.fresh(h)
+        before = self.snapshot()
+        _, pos, nb = self.extent(h)
+        I.call(I.getattr(view, "_update"), [v], {})
+        self.expect[dst] = dict(self.expect[src])
+        return self.frame(before, [(pos, nb)], f"view_of({dst})._update({src})")
+
+    def op_str_relayout_via_view(self):
+        """a whole-array update with texts of other lengths (same total) applied through a view of sa1: the items move"""
+        I = self.I
+        h = self.objs["sa1"]
+        view = self.ow.fresh(h)
+        before = self.snapshot()
+        _, pos, nb = self.extent(h)
+        new = ["s", "t" * 23, "uu"]
+        I.call(I.getattr(view, "_update"), [new], {})
+        self.expect["sa1"] = {"[0]": new[0], "[1]": new[1], "[2]": new[2]}
+        return self.frame(before, [(pos, nb)], "view_of(sa1)._update(['s', 't'*23, 'uu'])")
+
+    def op_str_relayout(self):
+        """the same update through the kept handle itself (its cache is refreshed: must hold)"""
+        I = self.I
+        h = self.objs["sa1"]
+        before = self.snapshot()
+        _, pos, nb = self.extent(h)
+        new = ["s", "t" * 23, "uu"]
+        I.call(I.getattr(h, "_update"), [new], {})
+        self.expect["sa1"] = {"[0]": new[0], "[1]": new[1], "[2]": new[2]}
+        return self.frame(before, [(pos, nb)], "sa1._update(['s', 't'*23, 'uu'])")
+
+
+OPS_OLDER = {
+    "update-via-view-from-s2": lambda H: H.op_update_via_view("s1", "s2"),
+    "update-via-view-from-other-buffer": lambda H: H.op_update_via_view("s1", "s4"),
+    "str-relayout-via-view": lambda H: H.op_str_relayout_via_view(),
+}
+
 OPS = {
+    "str-relayout": lambda H: H.op_str_relayout(),
     "update-from-s2": lambda H: H.op_update_same_size("s1", "s2"),
     "update-from-other-buffer": lambda H: H.op_update_same_size("s1", "s4"),
     "update-s2-from-s4": lambda H: H.op_update_same_size("s2", "s4"),
@@ -506,7 +554,7 @@ def run_history(model, hist):
             return
         for k, opn in enumerate(hist):
             try:
-                for b in OPS[opn](H):
+                for b in (OPS.get(opn) or OPS_OLDER[opn])(H):
                     H.found.append((k, opn, b))
             except PyExc as e:
                 H.found.append((k, opn, f"raises {e.etype}: {e}"))
@@ -595,3 +643,48 @@ def sv(cx):
         else:
             cx.ok(None, construct=f"{o}: {n_with} histories of length <= {maxlen} containing it", detail="kept handles = fresh views, expected values, frame", anchor=anchor, sub=o)
     cx.note(None, detail=f"{len(results)} histories of length <= {maxlen} over {len(OPS)} operations evaluated")
+
+
+
+@rule("SVo", ["C10", "C03"], "the same histories with a whole-value update applied through ANOTHER handle of the object: the older handle still locates every part where a fresh view does, reads the expected values, and nothing outside the target changed")
+def svo(cx):
+    """C10 and C03 quantify over operations "through randomly chosen handles/views" / "through any handle".  A handle
+    caches layout words (the positions of dynamically sized fields, the item offset table); an update of equal total
+    size but another split of the parts, applied through a second handle, rewrites those words in the buffer.  Every
+    history <normal operation>* ; <update through a view> of length <= 2 (thorough: 3) is evaluated and the kept (older)
+    handle is checked like in SV."""
+    m = cx.m
+    for _mod in ('struct', 'array', 'string', 'scalar', 'typeutils'):
+        m.mod(_mod)
+    for q in ("struct::Struct._update", "struct::Struct._from_buffer", "struct::Field.get_offset", "array::Array._update", "array::Array._get_offset"):
+        m.func(q)
+    maxlen = 3 if cx.tier == "thorough" else 2
+    pre = ["update-from-s2", "set-array-field", "set-item", "str-shrink-item", "str-item-fit", "str-relayout", "copy-then-update-copy"]
+    hs = [tuple(p) + (o,) for n in range(0, maxlen) for p in itertools.product(pre, repeat=n) for o in OPS_OLDER]
+    from concurrent.futures import ProcessPoolExecutor
+
+    jobs = int(os.environ.get("XOVERIF_JOBS", min(16, os.cpu_count() or 1)))
+    chunks = [hs[i::jobs * 2] for i in range(jobs * 2)]
+    results = []
+    with ProcessPoolExecutor(max_workers=jobs) as ex:
+        for part in ex.map(_worker, [(m.root, c) for c in chunks if c]):
+            results.extend(part)
+    errs = [(h, e) for h, f, e in results if e]
+    if errs:
+        cx.recog(False, None, f"SVo: {len(errs)} histories cannot be evaluated, first {errs[0][0]}: {errs[0][1]}")
+    cons = [(h, f) for h, f, e in results if f and f[0][1] == "construct"]
+    cx.need(not cons, f"SVo: construction of the zoo fails ({cons[0][1][0][2] if cons else ''}): decided by SV")
+    ANCH = {"update-via-view": "struct::Struct._update", "str-relayout-via-view": "array::Array._update"}
+    for o in OPS_OLDER:
+        anchor = [v for k, v in ANCH.items() if o.startswith(k)][0]
+        mine = [(h, f) for h, f, e in results if h[-1] == o]
+        # failures AT the operation through the view (an earlier failure of a normal operation is SV's business)
+        fails = sorted([(len(h), h, f[0][2]) for h, f in mine if f and f[0][1] == o], key=lambda t: (t[0], t[1]))
+        early = [h for h, f in mine if f and f[0][1] != o]
+        if fails:
+            ln, h, b = fails[0]
+            what = b.split(":", 1)[0] if ":" in b else b[:40]
+            cx.bad(None, construct=f"history {' ; '.join(h)}: older handle, {what}", detail=f"{b}  [{len(fails)} of the {len(mine)} histories ending in this operation fail at it]", anchor=anchor, sub=o)
+        else:
+            cx.ok(None, construct=f"{o}: {len(mine) - len(early)} histories of length <= {maxlen} ending in it", detail="the older handle = a fresh view, expected values, frame", anchor=anchor, sub=o)
+    cx.note(None, detail=f"{len(results)} histories evaluated")
